@@ -175,7 +175,7 @@ def build_sides(ctx):
 def run_lines(exe, lines, what, ctx):
     inp = '\n'.join(lines) + '\n'
     rc, o, e = sh([exe], input=inp, timeout=3000)
-    l = [x for x in o.split('\n') if x.strip()]
+    l = [x for x in o.split('\n') if x.strip() and not x.startswith(' **')]     # ' ** On entry to ...' is LAPACK's xerbla talking
     if rc != 0 or len(l) != len(lines):
         ctx.broken.append(('correspondence:C24', '%s failed rc=%s lines=%d of %d: %s' % (what, rc, len(l), len(lines), (e or '')[-300:])))
         return None
@@ -194,7 +194,9 @@ def certificate(ctx, exe, drv, rounds, maxdim):
         kind, p = me['kind'], me['p']; cx = is_cx(p); tol = TOL[p]; T = hexf(tol)
         hist[kind + '/' + p] = hist.get(kind + '/' + p, 0) + 1
         st, head, secs = parse(out, cx)
-        if st != 'OK': prob(ix, 'exception', out[:200]); continue
+        if st != 'OK':
+            # FactorQTZ::solve passes trans='T' to the complex ?unmqr/?unmrz routines, which accept only 'N' and 'C' (known finding)
+            prob(ix, 'qtz-complex-solve' if (kind == 'QTZ' and cx and 'unm' in out) else 'exception', out[:200]); continue
         if kind == 'SVD':
             m, n, rank = me['m'], me['n'], me['rank']; k = min(m, n)
             A = unflat(me['A'], m, n, cx); b = unvflat(me['b'], m, cx)
@@ -305,7 +307,17 @@ def certificate(ctx, exe, drv, rounds, maxdim):
         'measured_max_residual_over_tolerance': dict(sorted(worst.items())), 'input_distribution': dict(sorted(hist.items()))}
     ctx.trusted.add('certificate harness: harness/C24_probe.cpp outputs fed to the extracted checkers (ocaml/C24_drv.ml, double NumOps; binary32 emulated for the float rank count); '
                     'absolute tolerance %g (double) / %g (float) for O(1)-scaled inputs; LAPACK itself is NOT verified' % (TOL['d'], TOL['f']))
-    KNOWN_MAP = {'qtz-zero-matrix': 'qtz-zero-matrix-solve-uninitialised', 'lu-getL-getU': 'lu-getL-getU-wrong-triangles'}
+    # crash witness in a process of its own: Eigen on a complex<double> matrix with a default-constructed result matrix
+    zc = [c for c in cases if c[1]['kind'] == 'EIG' and c[1]['p'] == 'z' and c[1]['n'] >= 2][:1]
+    if zc:
+        raw = zc[0][0].replace('EIG', 'EIGRAW', 1)
+        rc, o, e = sh([exe], input=raw + '\n', timeout=120)
+        ctx.extra['correspondence']['certificate']['eigen_complex_double_raw'] = 'rc=%s %s' % (rc, o.strip()[:40])
+        if rc != 0 or not o.startswith('OK'):
+            cases.append((raw, {'kind': 'EIGRAW', 'p': 'z'})); lines.append(raw); outs.append('process ended with rc=%s (signal %s) %s' % (rc, -rc if rc < 0 else 0, o.strip()[:80]))
+            problems.append((len(cases) - 1, 'eigen-complex-double-raw', 'Eigen::getAllEigenValuesAndVectors on a Matrix_<complex<double>> with a default-constructed vectors argument: ' + outs[-1]))
+    KNOWN_MAP = {'qtz-zero-matrix': 'qtz-zero-matrix-solve-uninitialised', 'lu-getL-getU': 'lu-getL-getU-wrong-triangles',
+                 'qtz-complex-solve': 'qtz-complex-solve-illegal-lapack-trans', 'eigen-complex-double-raw': 'eigen-complex-double-vectors-not-resized'}
     seen = set()
     for ix, what, detail in problems:
         me = cases[ix][1]
